@@ -365,6 +365,105 @@ pub fn gen_family(r: &mut Rng) -> String {
     }
 }
 
+
+/// Strings on which byte counts, UTF-16 units and character counts all differ: 2-, 3- and 4-byte
+/// characters, combining marks, mixed with ASCII.
+pub const TEXT_STRS: &[&str] = &[
+    "héllo", "日本語テキスト", "a😀b😀", "e\u{301}x", "naïve café", "ÅÄÖ", "😀", "ß", "𝔘𝔫𝔦code", "éé", "a\u{308}\u{323}b", "x日y😀z", "Ünï", "abc", "", "añb",
+    "👨\u{200d}👩\u{200d}👧", "ｆｕｌｌ", "\u{7f}é",
+];
+
+fn json_str(s: &str) -> String {
+    let mut o = String::from("\"");
+    for c in s.chars() {
+        match c {
+            '"' => o.push_str("\\\""),
+            '\\' => o.push_str("\\\\"),
+            c if (c as u32) < 0x20 || c as u32 == 0x7f => o.push_str(&format!("\\u{:04x}", c as u32)),
+            c => o.push(c),
+        }
+    }
+    o.push('"');
+    o
+}
+
+/// Document root of the text class: non-ASCII strings at every place the programs of
+/// `gen_text_program` navigate to, slice bounds (negative, null, fractional) as data, and a piece `p`
+/// cut out of `.s` by characters (for ltrimstr / index / indices / split / test / sub …).
+pub fn gen_text_root(r: &mut Rng) -> String {
+    let pick = |r: &mut Rng| -> &'static str { *r.pick(TEXT_STRS) };
+    let s = pick(r);
+    let chars: Vec<char> = s.chars().collect();
+    let piece: String = if chars.is_empty() || r.chance(1, 5) {
+        pick(r).chars().take(1).collect()
+    } else {
+        let i = r.usize_below(chars.len());
+        let n = 1 + r.usize_below(2.min(chars.len() - i));
+        chars[i..i + n].iter().collect()
+    };
+    let bound = |r: &mut Rng| -> i64 { r.below(15) as i64 - 8 };
+    let ints: Vec<String> = (0..r.range(0, 6)).map(|_| (r.below(20) as i64 - 5).to_string()).collect();
+    format!(
+        "{{\"s\":{},\"b\":{},\"c\":{{\"s\":{},\"k\":[{},{}]}},\"a\":[{}],\"m\":[{{\"k\":{},\"v\":{}}}],\"from\":{},\"to\":{},\"n\":null,\"f\":{},\"i\":{},\"p\":{}}}",
+        json_str(s),
+        json_str(pick(r)),
+        json_str(pick(r)),
+        json_str(pick(r)),
+        json_str(pick(r)),
+        ints.join(","),
+        json_str(pick(r)),
+        bound(r),
+        bound(r),
+        bound(r),
+        *r.pick(&["1.5", "-1.5", "2.0", "0.5", "-0.5", "1e0", "3.7"]),
+        r.below(5),
+        json_str(&piece)
+    )
+}
+
+/// Programs of the text class: computed slice bounds (arithmetic, paths, variables, negative via
+/// `0-n` / `-n`, null, floats) on navigated strings and arrays, and the builtins where counting bytes
+/// instead of characters (or the reverse) shows. (No regex builtins: the harness links the library
+/// without its `regex` feature, where they all answer "regex feature not enabled".)
+pub fn gen_text_program(r: &mut Rng) -> String {
+    const TARGETS: &[&str] = &[".s", ".b", ".c.s", ".c.k[0]", ".c.k[1]", ".m[0].k", "(.s + .b)", ".a", ".c.k", "[.s, .b, .c.s]", ".[\"s\"]", ".c | .s"];
+    // bounds evaluated against the root (written inside `T[lo:hi]`)
+    const ROOT_B: &[&str] = &[".from", ".to", ".i", ".n", ".f", "null", "(.from + 1)", "(.to - 1)", "-(.i)", "(0 - .i)", "(.a | length)", "(.from, .to)", "(.i * -1)", "$k", "$j", "(.m[0].v)"];
+    // bounds evaluated against the target itself (written inside `T | .[lo:hi]`)
+    const SELF_B: &[&str] = &["(0-1)", "(0-2)", "(0-3)", "(length - 1)", "(length - 2)", "(length / 2)", "(1 - length)", "-(1)", "(0 - 100)", "(1 + 1)", "null", "1.5", "(0 - 1.5)", "-2", "-1", "2", "(utf8bytelength - length)?", "$k", "(length * -1)"];
+    let t = *r.pick(TARGETS);
+    let opt = |r: &mut Rng, xs: &[&'static str]| -> String { if r.chance(1, 4) { String::new() } else { (*r.pick(xs)).to_string() } };
+    let body = match r.below(12) {
+        0..=3 => {
+            let (lo, hi) = (opt(r, ROOT_B), opt(r, ROOT_B));
+            if lo.is_empty() && hi.is_empty() { format!("{t}[.from:]") } else { format!("{t}[{lo}:{hi}]") }
+        }
+        4..=6 => {
+            let (lo, hi) = (opt(r, SELF_B), opt(r, SELF_B));
+            if lo.is_empty() && hi.is_empty() { format!("{t} | .[(0-2):]") } else { format!("{t} | .[{lo}:{hi}]") }
+        }
+        7 => format!("[{t} | .[.[1:] | length:], .[:(0 - 1)], .[(0-2):(0-1)]]"),
+        8 => {
+            let f = *r.pick(&["length", "utf8bytelength", "explode", "explode | implode", "[explode[] | [.] | implode]", "ascii_downcase", "ascii_upcase", "@base64", "@base64 | @base64d", "@uri", "@html", "@json", "@text", "tojson", "tojson | fromjson", "[.] | @csv", "[.] | @tsv", "@sh", ". * 2", "[limit(3; explode[])]", "explode | length", "split(\"\")", "ascii?", "trim", "ltrimstr(\"a\")", "@json \"v\\(.)\"", "\"<\\(.)>\" | length"]);
+            format!("{t} | {f}")
+        }
+        9..=10 => {
+            let f = *r.pick(&["ltrimstr($p)", "rtrimstr($p)", "index($p)", "rindex($p)", "indices($p)", "split($p)", ". / $p", "startswith($p)", "endswith($p)", "contains($p)", "inside($p + .)", "ltrimstr($p) | length", "index($p) as $n | .[$n:]", "[indices($p)[] as $n | .[$n:($n + 1)]]", "split($p) | join($p)", "(. + $p) | rindex($p)", "[.[index($p):]?, .[:rindex($p)]?]", "ascii_downcase | index($p | ascii_downcase)"]);
+            format!(".p as $p | {t} | {f}")
+        }
+        _ => {
+            let f = *r.pick(&["map(length)", "map(utf8bytelength)", "map(.[(0-1):])", "map(.[:(0-1)])", "join(\"é\")", "map(explode | length)", "sort", "map(ascii_downcase)", "add | length", "map(.[1:2])", "[.[] | .[(0-2):(0-1)]]"]);
+            format!("[.s, .b, .c.s, .c.k[]] | {f}")
+        }
+    };
+    let prog = if body.contains("$k") || body.contains("$j") { format!(".from as $k | .to as $j | {body}") } else { body };
+    match r.below(6) {
+        0 => format!("[{prog}]"),
+        1 => format!("try ({prog}) catch ."),
+        _ => prog,
+    }
+}
+
 /// The "standard root": an object with fields of known types, so typed programs are mostly valid.
 pub fn gen_root(r: &mut Rng) -> String {
     let nums = |r: &mut Rng| {
@@ -1121,6 +1220,13 @@ pub fn gen(tier: Tier, r: &mut Rng, emit: &mut dyn FnMut(String)) {
     // evaluators share one comparator, so only the model comparison can see a wrong order here
     for p in ORDER_PROGS {
         emit(format!("C23 ev {} {}", hex_bytes(p.as_bytes()), hex_bytes(FAMILY_FIXED.as_bytes())));
+    }
+    // text class: computed slice bounds and byte-vs-character sensitive builtins on non-ASCII strings
+    // that sit in the document (the two evaluators take different routes for computed bounds)
+    for _ in 0..(if tier == Tier::Quick { 2_500 } else { 60_000 }) {
+        let input = gen_text_root(r);
+        let prog = gen_text_program(r);
+        emit(format!("C23 ev {} {}", hex_bytes(prog.as_bytes()), hex_bytes(input.as_bytes())));
     }
     for _ in 0..(if tier == Tier::Quick { 400 } else { 20_000 }) {
         let input = gen_family(r);
